@@ -334,6 +334,23 @@ def gen_jsonclass(n, rnd):
         r = run_body(dumps(body, rnd), sv, dk, rnd, "jsonclass", jc="reject" if use_bad else "ok")
         if r:
             recs.append(r)
+    # a class known to ONE dispatcher only (its Config's local class table): the same payload is translated there and
+    # must still be rejected by every other dispatcher of the process, before and after
+    class VerifLocalBean(object):
+        pass
+    VerifLocalBean.__module__ = "__main__"
+    for k in range(max(3, n // 40)):
+        sv, dk = rnd.choice("12"), rnd.choice(["default", "custom"])
+        ent = {"jsonrpc": "2.0", "method": "ok_1", "id": k + 1, "params": [{"__jsonclass__": ["VerifLocalBean", []], "x": k}]}
+        text = dumps(ent, rnd)
+        for knows in rnd.choice([(False, True, False), (True, False), (True, False, True, False)]):
+            world = World(sv, rnd)
+            if knows:
+                world.cfg.classes.add(VerifLocalBean)
+                world.cfg0 = cfg_snapshot(world.cfg)
+            r = run_body(text, sv, dk, rnd, "jsonclass", world=world, jc="ok" if knows else "reject")
+            if r:
+                recs.append(r)
     return recs
 
 
